@@ -28,7 +28,7 @@ func runC02(c *Ctx) {
 		return
 	}
 	c02MergeTable(c, a)
-	c02ArgUntouched(c, a)
+	c02ArgUntouched(c, a, "C02-D2")
 	c02AnyKind(c, a)
 }
 
@@ -161,8 +161,7 @@ func mergeImpls(c *Ctx, a *sketchAnchors) []mergeImpl {
 	return out
 }
 
-func c02ArgUntouched(c *Ctx, a *sketchAnchors) {
-	const rule = "C02-D2"
+func c02ArgUntouched(c *Ctx, a *sketchAnchors, rule string) {
 	if pr := c.paginated(); pr.err != "" {
 		c.R.undecided(rule, "anchor/paginated-routines", "", "", "sort/compaction routines resolve by role", pr.err)
 		return
